@@ -95,7 +95,7 @@ Section Purity.
     - reflexivity.
     - apply rfst_bind; [reflexivity|]. intros x y E. apply rfst_bind.
       + cbn [cd_defs]. revert x y E. induction IH as [|m ms Hm _ IHms]; intros x y E; [cbn; congruence|].
-        destruct (class_child m && negb (is_placeholder m)); [|apply IHms; exact E].
+        destruct ((if is_enum_def _ then enum_child m else class_child m) && negb (is_placeholder m)); [|apply IHms; exact E].
         rewrite E. pose proof (Hm (fst y)) as HM.
         destruct (walk_member al d pref_doc w1 (fst y) m) as [s1|], (walk_member al d pref_doc w2 (fst y) m) as [s2|];
           cbn in HM; try discriminate; cbn [bind].
@@ -353,7 +353,7 @@ Section Stack.
       eapply push_then_pop; [exact P1| |exact P3]. clear P1 P3.
       repeat match goal with E : _ = Ok (s1, _) |- _ => clear E | E : _ = Ok st' |- _ => clear E end.
       rename EG into E0. revert s1 w1 E0. induction IH as [|x xs Hx _ IHxs]; intros s1 w1 E0; [inv_ok; apply pres_refl|].
-      destruct (class_child x && negb (is_placeholder x)); [|eapply IHxs; exact E0].
+      destruct ((if is_enum_def _ then enum_child x else class_child x) && negb (is_placeholder x)); [|eapply IHxs; exact E0].
       cbn [fst snd] in E0. destruct (walk_member al d pref_doc warn s1 x) as [[sx wx]|] eqn:EX; cbn [bind fst snd] in E0; [|discriminate].
       eapply pres_trans; [eapply Hx; exact EX|eapply IHxs; exact E0].
   Qed.
@@ -781,7 +781,7 @@ Section Exact.
       assert (BODY : forall fr, vs_stack s1 = fr :: top :: rest -> (forall f, fr <> FFunc f) ->
                      exists fr', vs_stack s2 = fr' :: top :: rest /\ hdr_eq fr fr').
       { clear -EG IH. revert s1 w1 EG. induction IH as [|x xs Hx _ IHxs]; intros s1 w1 EG fr S1 NF1; [inv_ok; exists fr; split; [exact S1|apply hdr_refl]|].
-        destruct (class_child x && negb (is_placeholder x)); [|eapply IHxs; eauto].
+        destruct ((if is_enum_def _ then enum_child x else class_child x) && negb (is_placeholder x)); [|eapply IHxs; eauto].
         cbn [fst snd] in EG. destruct (walk_member al d pref_doc warn s1 x) as [[sx wx]|] eqn:EX; cbn [bind fst snd] in EG; [|discriminate].
         destruct (Hx _ _ _ _ _ EX S1 NF1) as [fr1 [fr0 [eff [S2 [H2 _]]]]].
         destruct (IHxs _ _ EG fr1 S2 (hdr_not_func _ _ H2 NF1)) as [fr' [S3 H3]].
@@ -1134,7 +1134,7 @@ Section Local.
         apply rcore1_bind; [apply enter_enum_resp; exact H|]. intros s s' Hs. apply rcore_of_same. exact Hs.
       + intros s s' x Hs. apply rcore_bind.
         * cbn [cd_defs]. generalize x. revert s s' Hs. induction IH as [|m ms Hm _ IHms]; intros s s' Hs x0; [apply rcore_of_same; exact Hs|].
-          destruct (class_child m && negb (is_placeholder m)); [|apply IHms; exact Hs]. cbn [fst snd].
+          destruct ((if is_enum_def _ then enum_child m else class_child m) && negb (is_placeholder m)); [|apply IHms; exact Hs]. cbn [fst snd].
           pose proof (Hm s s' Hs) as HM. apply rcore_inv in HM.
           destruct (walk_member al d pref_doc warn s m) as [[s1 w1]|e1], (walk_member al d pref_doc warn s' m) as [[s2 w2]|e2];
             try contradiction; cbn [bind fst snd].
@@ -1340,7 +1340,7 @@ Section Invariant.
       { destruct (is_enum_def _); [inv_ok; eapply P_enter_enum; eassumption|eapply P_enter_class; eassumption]. }
       assert (P2 : P s2).
       { clear -EG IH P1. revert s1 w1 EG P1. induction IH as [|x xs Hx _ IHxs]; intros s1 w1 EG P1; [inv_ok; exact P1|].
-        destruct (class_child x && negb (is_placeholder x)); [|eapply IHxs; eauto].
+        destruct ((if is_enum_def _ then enum_child x else class_child x) && negb (is_placeholder x)); [|eapply IHxs; eauto].
         cbn [fst snd] in EG. destruct (walk_member al d pref_doc warn s1 x) as [[sx wx]|] eqn:EX; cbn [bind fst snd] in EG; [|discriminate].
         eapply IHxs; [exact EG|]. eapply Hx; eassumption. }
       destruct (is_enum_def _); [eapply P_leave_enum|eapply P_leave_class]; eassumption.
